@@ -64,7 +64,7 @@ func (c12) Parties() map[string]string {
 	return map[string]string{"cors.Middleware and internals": "real", "adversarial application code (caller of NewMiddleware/Reconfigure/Config, wrapped handler)": "stub (fault injector)", "clients": "stub", "ResponseWriter": "stub (recording)"}
 }
 func (c12) FaultKinds() []string {
-	return []string{"F4_scribble_input_config", "F4_scribble_config_result", "F4_scribble_kept_config_result", "F4_flip_scalars", "F4_handler_scribbles_request_headers", "F4_handler_scribbles_response_headers", "F6_duplicate_request"}
+	return []string{"F4_scribble_input_config", "F4_scribble_config_result", "F4_scribble_kept_config_result", "F4_flip_scalars", "F4_handler_scribbles_request_headers", "F4_handler_scribbles_response_headers", "F4_handler_mutates_header_maps", "F6_duplicate_request"}
 }
 func (c12) Probes() []string {
 	return []string{"shared_config_value", "handler_saw_acao_alias", "alien_request", "three_middlewares", "suite_compared"}
@@ -86,6 +86,9 @@ func (c12) Gen(r *R, tier string) any {
 		p.MWs = append(p.MWs, mw)
 	}
 	steps := r.Range(5, 40)
+	if tier == "thorough" && r.P(0.3) {
+		steps = r.Range(40, 90)
+	}
 	kinds := []string{"req", "req", "req_mutating_handler", "req_mutating_handler", "dup", "scribble_input", "scribble_config_result", "keep_config_result", "scribble_kept", "flip_scalars"}
 	for i := 0; i < steps; i++ {
 		p.Steps = append(p.Steps, C12Step{Kind: pick(r, kinds), MW: r.Intn(k), Req: r.Intn(1 << 16), Alien: r.P(0.2)})
@@ -149,6 +152,14 @@ func (h mutHandler) ServeHTTP(w http.ResponseWriter, r *http.Request) {
 			}
 			rh[k] = append(vs, junk)
 		}
+		// the maps themselves: drop and inject keys (request map is the caller's, response map this response's)
+		for k := range r.Header {
+			delete(r.Header, k)
+		}
+		r.Header["Origin"] = []string{junk}
+		r.Header["Access-Control-Request-Method"] = []string{junk}
+		rh["X-Injected"] = []string{junk}
+		h.c.hit("F4_handler_mutates_header_maps")
 	}
 	w.WriteHeader(200)
 	w.Write([]byte("ok"))
